@@ -42,6 +42,9 @@ pub enum WStep {
     Restart { node: u64 },
     /// kill -9 + start
     KillRestart { node: u64 },
+    /// clean stop, then the disk image an interrupted compaction leaves behind (a partial snapshot file under the id the
+    /// next compaction will use, unknown to the index), then start; cut = per cent of the newest snapshot's bytes missing
+    PlantSnapshot { node: u64, cut: u8 },
     /// one record of a data import (what TransferImportManager::apply_config does): draw a section of history ids from
     /// the config actor, optionally let a publish slip in, then write the full value with its history through raft
     Import { node: u64, t: u8, g: u8, d: u8, inter: bool },
@@ -405,13 +408,13 @@ pub async fn do_step(n: &NodeH, st: &WStep, m: &mut WModel, timeout_ms: u64) -> 
             advance(*ms).await;
             OpOutcome::Ok
         }
-        WStep::Restart { .. } | WStep::KillRestart { .. } => OpOutcome::Ok,
+        WStep::Restart { .. } | WStep::KillRestart { .. } | WStep::PlantSnapshot { .. } => OpOutcome::Ok,
     }
 }
 
 pub fn step_node(st: &WStep) -> u64 {
     match st {
-        WStep::CfgSet { node, .. } | WStep::CfgDel { node, .. } | WStep::NsSet { node, .. } | WStep::NsDel { node, .. } | WStep::UserAdd { node, .. } | WStep::UserUpd { node, .. } | WStep::UserDel { node, .. } | WStep::SeqNext { node, .. } | WStep::SeqRange { node, .. } | WStep::PInstReg { node, .. } | WStep::PInstDel { node, .. } | WStep::Restart { node } | WStep::KillRestart { node } | WStep::Import { node, .. } => *node,
+        WStep::CfgSet { node, .. } | WStep::CfgDel { node, .. } | WStep::NsSet { node, .. } | WStep::NsDel { node, .. } | WStep::UserAdd { node, .. } | WStep::UserUpd { node, .. } | WStep::UserDel { node, .. } | WStep::SeqNext { node, .. } | WStep::SeqRange { node, .. } | WStep::PInstReg { node, .. } | WStep::PInstDel { node, .. } | WStep::Restart { node } | WStep::KillRestart { node } | WStep::Import { node, .. } | WStep::PlantSnapshot { node, .. } => *node,
         WStep::Advance { .. } => 0,
     }
 }
